@@ -35,7 +35,7 @@ fn pcmp(x: &Arr, y: &Arr) -> Option<Ordering> {
 }
 
 pub fn standin_vclock_iter(r: &mut Report) {
-    r.target = "VClock::iter, VClock::into_iter / IntoIter::next: yield exactly the dots of the clock, each actor once; FromIterator<Dot> for VClock (not under contract): pointwise maximum, no zero stored".into();
+    r.target = "VClock::iter, VClock::into_iter / IntoIter::next: yield exactly the dots of the clock, each actor once; FromIterator<Dot> for VClock (under contract through the N4 shim over the caller's iterator): pointwise maximum, no zero stored".into();
     r.bound = "all clocks over actors {0,1,2} with counters 0..=3 (64 clocks); all sequences of 3 dots over 3 actors x counters 0..=2 (729)".into();
     for a in all(3) {
         let c = mk(&a);
@@ -50,7 +50,7 @@ pub fn standin_vclock_iter(r: &mut Report) {
         for d in c.clone().into_iter() { if seen[d.actor as usize] != 0 { dup = true; } seen[d.actor as usize] = d.counter; n += 1; }
         r.case("into_iter.exact", !dup && seen == a && n == a.iter().filter(|x| **x > 0).count(), &|| format!("{:?}", a), &|| format!("yielded {:?}", seen));
     }
-    // FromIterator<Dot> (generic over IntoIterator, not under contract): the pointwise maximum of the dots, zero counters not stored
+    // FromIterator<Dot> (generic over IntoIterator; verified over the collected items, N4 shim): the pointwise maximum of the dots, zero counters not stored
     let dots: Vec<(u8, u64)> = (0..ACTORS as u8).flat_map(|a| (0..=2u64).map(move |n| (a, n))).collect();
     for i in 0..dots.len() { for j in 0..dots.len() { for k in 0..dots.len() {
         let seq = [dots[i], dots[j], dots[k]];
